@@ -8,6 +8,7 @@ VARIABLE l
 Why(r) ==
   IF "a" \in DOMAIN r THEN
        (IF r.a.outcome = r.b.outcome /\ r.a.types = r.b.types /\ r.a.names = r.b.names /\ r.a.rows = r.b.rows THEN "ok" ELSE "config-dependent")
+  ELSE IF r.obs.outcome = "error" THEN (IF ErrorOK(r.text) THEN "ok" ELSE "outcome")
   ELSE IF r.obs.outcome # "rows" THEN "outcome"
   ELSE IF ReadOK(r.text, r.obs) THEN "ok" ELSE "records"
 TInit == l = 1
